@@ -222,7 +222,10 @@ def run(F, chk):
     n3 = 0
     for fid in sorted(F.reachable([fin["id"]]) | {fin["id"]}):
         fn = F.fns.get(fid)
-        if not fn or fn.get("cls") != NIF or fn.get("tmpl") == "pattern" or not fn.get("body"):
+        if not fn or fn.get("tmpl") == "pattern" or not fn.get("body"):
+            continue
+        # NifFile's own functions, the file-static helpers next to them and their lambdas
+        if not (fn.get("cls") == NIF or (not fn.get("cls") and (fn.get("file") == fin.get("file") or fn.get("lambda_parent")))):
             continue
         mirrors = []
         for n in walk(fn["body"]):
